@@ -63,6 +63,10 @@ func (p *Parser) parseMethod(method types.Object, opts option.Options) (*model.M
 		return nil, err
 	}
 
+	// A go:generate line inside the method's comment is a directive, not a part of the
+	// doc comment of the generated function.
+	_ = util.ExtractMatchComments(docComment, reGoBuildGen)
+
 	cleanUp()
 
 	return &model.MethodEntry{
